@@ -210,6 +210,25 @@ func monC07(c *Case, tr *Trace) []Violation {
 			}
 		}
 	}
+	// --- 2b. the notice is actually sent: a handler that was still running when its caller cancelled (no close frame emitted yet)
+	// has its context ended by the time the run is drained - not only when the harness finally takes the tunnel down
+	if k, ok := ix.keyOf[vi]; ok && !parkArmed {
+		closeEmit := -1
+		for _, f := range ix.byStream[k] {
+			if f.F.Kind == "close" && closeEmit < 0 {
+				closeEmit = f.Step
+			}
+		}
+		endStep := tr.PhaseStart["end"]
+		for _, inv := range tr.Invocations {
+			if inv.RPC != vi || inv.Step > er.Fired || (inv.Returned >= 0 && inv.Returned <= er.Fired) || (closeEmit >= 0 && closeEmit <= er.Fired) {
+				continue
+			}
+			if inv.CtxDoneStep < 0 || inv.CtxDoneStep >= endStep {
+				add("handler_never_told", er.Fired, "the caller's context ended at step %d while the handler was running; the handler's context had still not ended when the drained run reached its end (step %d; it ended at %d): no cancel notice reached it", er.Fired, endStep, inv.CtxDoneStep)
+			}
+		}
+	}
 	// --- 3. exactly one of the two legal outcomes
 	m := modelHandler(sp)
 	hsOK := 0
